@@ -210,4 +210,43 @@ theorem keptLines_lookup (l : Nat) : ∀ (ms : List Mapping) (e : LEncSt), l ≠
           simp only [lencStep, ho, hwb, Bool.false_eq_true, if_false]
           exact fun h => hml h.symm
 
+/-- what the lines-only encoder keeps: one segment per line, at column 0, on strictly increasing lines -/
+theorem keptLines_facts : ∀ (ms : List Mapping) (e : LEncSt), linesOK e.lastWritten ms →
+    (∀ x ∈ keptLines e ms, x.gc = 0 ∧ e.lastWritten < x.gl ∧ ∃ m ∈ ms, m.orig.isSome = true ∧ x.gl = m.gl)
+    ∧ (keptLines e ms).Pairwise (fun a b => a.gl < b.gl) := by
+  intro ms
+  induction ms with
+  | nil => intro e _; exact ⟨fun x hx => by simp [keptLines] at hx, by simp [keptLines]⟩
+  | cons m ms ih =>
+    intro e hl
+    obtain ⟨h1, h2⟩ := hl
+    have hrest : linesOK e.lastWritten ms := linesOK_mono h1 ms h2
+    simp only [keptLines]
+    cases ho : m.orig with
+    | none =>
+      simp only []
+      obtain ⟨a, b⟩ := ih e hrest
+      exact ⟨fun x hx => by obtain ⟨x1, x2, m', hm', x3⟩ := a x hx; exact ⟨x1, x2, m', List.mem_cons_of_mem _ hm', x3⟩, b⟩
+    | some o =>
+      simp only []
+      by_cases heq : (e.lastWritten == m.gl) = true
+      · simp only [heq, if_true]
+        obtain ⟨a, b⟩ := ih e hrest
+        exact ⟨fun x hx => by obtain ⟨x1, x2, m', hm', x3⟩ := a x hx; exact ⟨x1, x2, m', List.mem_cons_of_mem _ hm', x3⟩, b⟩
+      · simp only [heq, Bool.false_eq_true, if_false]
+        have hne : e.lastWritten ≠ m.gl := by simpa using heq
+        have hlw : (lencStep e m).1.lastWritten = m.gl := by simp [lencStep, ho, heq]
+        obtain ⟨a, b⟩ := ih (lencStep e m).1 (by rw [hlw]; exact h2)
+        constructor
+        · intro x hx
+          rcases List.mem_cons.1 hx with rfl | hx
+          · exact ⟨rfl, by simp only; omega, m, by simp, by rw [ho]; rfl, rfl⟩
+          · obtain ⟨x1, x2, m', hm', x3⟩ := a x hx
+            rw [hlw] at x2
+            exact ⟨x1, by omega, m', List.mem_cons_of_mem _ hm', x3⟩
+        · refine List.Pairwise.cons (fun x hx => ?_) b
+          obtain ⟨_, x2, _⟩ := a x hx
+          rw [hlw] at x2
+          exact x2
+
 end Rs
